@@ -60,13 +60,26 @@ class ABCProxy(LoaderProvider, DumperProvider):
         self._for_loader = for_loader
         self._for_dumper = for_dumper
 
+    def _get_impl(self, request_type: TypeHint) -> TypeHint:
+        # keep type arguments of the abstract type, Mapping[str, int] must be processed as dict[str, int]
+        try:
+            args = normalize_type(request_type).args
+        except ValueError:
+            return self._impl
+        if not args:
+            return self._impl
+        try:
+            return self._impl[tuple(arg.source for arg in args)]
+        except (TypeError, AttributeError):
+            return self._impl
+
     def provide_loader(self, mediator: Mediator, request: LoaderRequest) -> Loader:
         if not self._for_loader:
             raise CannotProvide
 
         return mediator.mandatory_provide(
             LoaderRequest(
-                loc_stack=request.loc_stack.replace_last_type(self._impl),
+                loc_stack=request.loc_stack.replace_last_type(self._get_impl(request.last_loc.type)),
             ),
             lambda x: f"Cannot create loader for union. Loader for {self._impl} cannot be created",
         )
@@ -77,7 +90,7 @@ class ABCProxy(LoaderProvider, DumperProvider):
 
         return mediator.mandatory_provide(
             DumperRequest(
-                loc_stack=request.loc_stack.replace_last_type(self._impl),
+                loc_stack=request.loc_stack.replace_last_type(self._get_impl(request.last_loc.type)),
             ),
             lambda x: f"Cannot create dumper for union. Dumper for {self._impl} cannot be created",
         )
